@@ -166,4 +166,50 @@ theorem mStep_aligned (sc : Scene a c z) (hpca : PcaOn pca z) (γ aux : Fin (K+1
 
 end watson
 
+/-! ### a concrete scene (non-vacuity of the hypotheses of the round theorems) -/
+
+/-- standard basis of `ℂ²` as prototypes -/
+def a2 : Fin 2 → Fin 2 → ℂ := fun k d => if k = d then 1 else 0
+
+/-- PCA of a real diagonal 2×2 matrix -/
+noncomputable def diagPca (S : Tab 2 (Tab 2 ℂ)) : Tab 2 ℂ × ℝ :=
+  if (rd2 S 1 1).re ≤ (rd2 S 0 0).re then (tab ![1, 0], (rd2 S 0 0).re) else (tab ![0, 1], (rd2 S 1 1).re)
+
+theorem scene2 : Scene a2 (fun n : Fin 2 => n) a2 := by
+  refine ⟨?_, fun _ => 1, fun _ => by simp, fun n d => by simp⟩
+  intro j k
+  fin_cases j <;> fin_cases k <;> simp [a2]
+
+theorem diagPca_contract (S : Tab 2 (Tab 2 ℂ)) (x : Fin 2 → ℝ)
+    (hS : ∀ d e, rd2 S d e = if d = e then ((x d : ℝ) : ℂ) else 0) : PcaContract S (diagPca S) := by
+  unfold diagPca
+  split
+  · next h =>
+    rw [hS, hS] at h
+    refine ⟨by simp [Fin.sum_univ_two], ?_, ?_⟩
+    · intro d; fin_cases d <;> simp [hS]
+    · intro v hv
+      simp only [Fin.sum_univ_two] at hv
+      simp only [Fin.sum_univ_two, hS]
+      simp [Complex.normSq_apply] at hv h ⊢
+      have e := congrArg (fun t => x 0 * t) hv
+      nlinarith [e, mul_nonneg (sub_nonneg.mpr h) (add_nonneg (mul_self_nonneg (v 1).re) (mul_self_nonneg (v 1).im))]
+  · next h =>
+    rw [hS, hS] at h
+    refine ⟨by simp [Fin.sum_univ_two], ?_, ?_⟩
+    · intro d; fin_cases d <;> simp [hS]
+    · intro v hv
+      simp only [Fin.sum_univ_two] at hv
+      simp only [Fin.sum_univ_two, hS]
+      simp [Complex.normSq_apply] at hv h ⊢
+      have e := congrArg (fun t => x 1 * t) hv
+      nlinarith [e, mul_nonneg (sub_nonneg.mpr h.le) (add_nonneg (mul_self_nonneg (v 0).re) (mul_self_nonneg (v 0).im))]
+
+theorem pcaOn2 : PcaOn diagPca a2 := by
+  intro w
+  refine diagPca_contract _ (fun d => w d / (w 0 + w 1)) ?_
+  intro d e
+  rw [watsonScatter_eq]
+  fin_cases d <;> fin_cases e <;> simp [a2, Fin.sum_univ_two]
+
 end PbBss.FixedPoint
